@@ -29,16 +29,25 @@ Definition bad_after_incdec (t : tok) : bool :=
 Definition pstart (b ts : list ptok) : Prop :=
   hd_is is_incdec b = true -> hd_is bad_after_incdec ts = false.
 
-Definition nojux (rest : list ptok) : Prop := hd_is is_name rest = false.
+Definition is_numt (t : tok) : bool := match t with TNum _ => true | _ => false end.
+(* no juxtaposition: the next token is neither a name nor a number *)
+Definition nojux (rest : list ptok) : Prop := hd_is (fun t => is_name t || is_numt t) rest = false.
+
+Lemma nojux_name : forall t r, nojux (t :: r) -> is_name (snd t) = false.
+Proof. intros t r H. unfold nojux in H. cbn [hd_is] in H. apply orb_false_iff in H. apply H. Qed.
 
 Definition ND (b l : list ptok) : Prop := decl_like_from b l = false.
 
 Definition strict_ender (t : tok) : bool :=
   match t with TId _ | TNum _ | TRP | TRB => true | _ => false end.
 
-(* position right after an operand *)
+(* position right after an operand: the previous token ends an operand, or it is a postfix ++/-- behind one *)
 Definition aft (b : list ptok) : Prop :=
-  match b with t :: _ => strict_ender (snd t) = true | [] => False end.
+  match b with
+  | t :: b' => strict_ender (snd t) = true \/
+               (is_incdec (snd t) = true /\ match b' with t2 :: _ => strict_ender (snd t2) = true | [] => False end)
+  | [] => False
+  end.
 
 Lemma ND_app : forall l1 b l2, ND b (l1 ++ l2) -> ND (rev l1 ++ b) l2.
 Proof.
@@ -76,7 +85,7 @@ Proof.
   rewrite Hz1. cbn [snd length].
   assert (Hz2 : skip_to_last_name (S (length rest)) (s, (l, TId x) :: rest) = (s, (l, TId x) :: rest)).
   { cbn [skip_to_last_name]. destruct rest as [|t2 r2]; [reflexivity|].
-    unfold nojux in Hj. cbn [hd_is] in Hj. rewrite Hj. reflexivity. }
+    rewrite (nojux_name _ _ Hj). reflexivity. }
   rewrite Hz2.
   match goal with |- context [fnptr_pattern ?z] =>
     assert (Hfp' : fnptr_pattern z = false)
@@ -84,7 +93,7 @@ Proof.
   rewrite Hfp'. rewrite !andb_false_r.
   unfold adv, push, set_bef, set_stk, mkafter. cbn [stk bef depth asgn rev app].
   destruct rest as [|a [|b r]]; try reflexivity.
-  unfold nojux in Hj. cbn [hd_is] in Hj. rewrite Hj. reflexivity.
+  rewrite (nojux_name _ _ Hj). reflexivity.
 Qed.
 
 Lemma term_num : forall s l x rest,
@@ -94,7 +103,7 @@ Proof.
   intros s l x rest Hj. unfold term. cbn [snd].
   unfold adv, push, set_bef, set_stk, mkafter. cbn [stk bef depth asgn rev app].
   destruct rest as [|a r]; [reflexivity|].
-  cbn [length skip_names]. unfold nojux in Hj. cbn [hd_is] in Hj. rewrite Hj. reflexivity.
+  cbn [length skip_names]. rewrite (nojux_name _ _ Hj). reflexivity.
 Qed.
 
 (* ---------- quiet tokens *)
@@ -122,11 +131,18 @@ Proof.
     do 16 (destruct r as [|r]; [first [reflexivity | exfalso; apply Hr; reflexivity]|]); reflexivity.
 Qed.
 
-Lemma not_prefix_after : forall b t, aft b -> is_prefix_unary b t = false.
+Lemma not_prefix_after : forall b t, aft b -> is_incdec t = false -> is_prefix_unary b t = false.
 Proof.
-  intros [|p b'] t H; [destruct H|]. cbn [aft] in H. unfold is_prefix_unary.
-  destruct (snd p); try discriminate; cbn; rewrite ?andb_false_r; reflexivity.
+  intros [|p b'] t H Ht; [destruct H|]. cbn [aft] in H. unfold is_prefix_unary.
+  destruct H as [H|[H1 H2]].
+  - destruct (snd p); try discriminate; cbn; rewrite ?andb_false_r; reflexivity.
+  - rewrite H1, Ht. cbn [negb orb]. rewrite andb_false_r.
+    destruct b' as [|pp b'']; [destruct H2|].
+    destruct (snd pp); try discriminate; cbn; rewrite ?andb_false_r; reflexivity.
 Qed.
+
+Lemma bin_opr_not_incdec : forall o, is_incdec (TOp (bin_opr o)) = false.
+Proof. destruct o; reflexivity. Qed.
 
 (* a binary operator token right after an operand: every tighter loop stops *)
 Lemma quiet_binop : forall cpp o r b a l rest,
@@ -136,7 +152,7 @@ Proof.
   destruct r as [|r].
   { cbn [lpn p2_loop snd]. destruct o; reflexivity. }
   destruct r as [|r].
-  { cbn [lpn loop_at p3_loop snd bef]. rewrite (not_prefix_after b _ Ha). rewrite andb_false_r. reflexivity. }
+  { cbn [lpn loop_at p3_loop snd bef]. rewrite (not_prefix_after b _ Ha (bin_opr_not_incdec o)). rewrite andb_false_r. reflexivity. }
   destruct r as [|r].
   { cbn [lpn loop_at ptr_loop snd]. destruct rest; [reflexivity|]. destruct o; reflexivity. }
   assert (Hc : classify cpp (S (S (S r))) (mkSt k b dp a, (l, TOp (bin_opr o)) :: rest) = Stop).
@@ -240,12 +256,6 @@ Qed.
 Lemma opos_after_op : forall b l o, opos b -> opos ((l, TOp o) :: b).
 Proof.
   intros b l o H. split; [reflexivity|]. intros _. destruct b as [|pp b']; [exact I|]. apply H.
-Qed.
-
-Lemma quiet_p3_aft : forall cpp b a rest, aft b -> quiet cpp 1 b a rest.
-Proof.
-  intros cpp b a rest Ha rec n k dp. cbn [lpn loop_at p3_loop]. destruct rest as [|t r]; [reflexivity|].
-  cbn [bef]. rewrite (not_prefix_after b _ Ha), andb_false_r. reflexivity.
 Qed.
 
 (* what an operand starts with: a run of * and & and then a name, number, '(' or another prefix operator *)
